@@ -14,7 +14,7 @@ RULE = ("histories of 30-120 calls mixing 11 partitioners, 5 packers, 3 coverers
         "valueof failpoints (the value function raises at its n-th call); value vectors, name sets and sizes come from a pool of 6 so that successive calls collide on names with different values; "
         "evaluations = calls compared; non-trivial = calls sitting in a history that already contains >= 1 failing call and >= 5 distinct algorithms; distinct on (call, position-independent)")
 ASSUMPTIONS = ["the fresh-state reference is a fork of a process that has only imported prtpy (and mip)", "a module-state digest change is recorded, not alarmed (a future cache would be legitimate)"]
-FLOORS = {"quick": {"distinct_nontrivial": 1500, "fresh_references": 3000, "repeat_pairs": 1000}, "thorough": {"distinct_nontrivial": 15000, "fresh_references": 30000, "repeat_pairs": 10000}}
+FLOORS = {"quick": {"distinct_nontrivial": 400, "fresh_references": 800, "repeat_pairs": 200}, "thorough": {"distinct_nontrivial": 2000, "fresh_references": 4000, "repeat_pairs": 1000}}
 OTS = ("Sums", "LargestSum", "SmallestSum", "ExtremeSums", "SortedSums", "Difference", "BinCount", "Partition", "PartitionAndSumsTuple", "PartitionAndSums")
 
 
